@@ -279,6 +279,31 @@ pub fn run(ctx: &mut Ctx) {
             check(ctx, &mut r, &f, *p, *e, fl, 0);
         }
     }
+    // environment paths of every bit length 1..=27 (all spellings that can be stored inline) over an environment in
+    // which every path of 30 steps exists: the inline and the heap / view representations take different lookup code
+    {
+        let mut g = Forest::new();
+        let mut env = g.atom(&[0x2a]);
+        for _ in 0..30 {
+            env = g.pair(env, env);
+        }
+        for bits in 1..=27u32 {
+            for fill in [0u32, u32::MAX, 0x5555_5555] {
+                let cid = DIRECTED | id;
+                id += 1;
+                if !ctx.want(cid) {
+                    continue;
+                }
+                let v: u32 = (1u32 << (bits - 1)) | (fill & ((1u32 << (bits - 1)) - 1));
+                let prog = g.int(v as i128);
+                let mut r = ctx.rng(cid);
+                for fl in [ClvmFlags::empty(), ClvmFlags::NEW_COST_MODEL | ClvmFlags::ENABLE_GC] {
+                    check(ctx, &mut r, &g, prog, env, fl, 0);
+                }
+                ctx.count("path_atoms_of_every_inline_bit_length");
+            }
+        }
+    }
     // the programs that force every outcome of a reclaiming restore (with and without ENABLE_GC)
     {
         let d4 = super::c04::directed(&mut f);
